@@ -595,6 +595,47 @@ def run(ctx):
     from . import c18
     drive.for_each_case(ctx, 'nested-class-handlers', max(20, ctx.budget), nested_class_handlers, gen=lambda c, r: Ty('int'), seconds=60)
 
+    # the instance METHODS of related classes (a base and its subclass, two parametrisations of a generic) called in any order: each
+    # instance is written by its own class, whatever was written before; and from_yaml_all after an equal-comparing List alias was made
+    def related_classes(i, rng, ty_unused, T_unused):
+        import io as _io
+        import types as _types
+        TV = t.TypeVar('TV')
+        Base = type(f"RB{next(_serial)}", (env.PaneBase,), {'__annotations__': {'x': int}, '__module__': __name__})
+        Child = type(f"RC{next(_serial)}", (Base,), {'__annotations__': {'y': str}, 'y': 'd', '__module__': __name__}, out_rename=rng.choice((None, 'scream')))
+        G = _types.new_class(f"RG{next(_serial)}", (env.PaneBase, t.Generic[TV]), {}, lambda ns: ns.update({'__annotations__': {'v': TV}, '__module__': __name__}))
+        insts = [Base(1), Child(2, 'z'), G[int](3), G[t.List[int]]([4]), G(5)]
+        order = [rng.choice(insts) for _ in range(rng.randint(4, 9))]
+        for step, x in enumerate(order):
+            want = observe(env.into_data, x, type(x))
+            for label, call in (('x.into_data()', x.into_data), ('x.dict()', lambda: {k: v for k, v in x.dict().items()}),
+                                ('json.loads(x.write_json())', lambda: json.loads(x.write_json()))):
+                got = observe(call)
+                ctx.count('related_class_method_calls')
+                if label == 'x.dict()':
+                    ok = got.kind == 'value' and set(got.val) == {f.name for f in type(x).__pane_info__.fields}
+                else:
+                    ok = got.kind == 'value' and want.kind == 'value' and got.val == want.val
+                ctx.case(('related-classes', label, type(x).__name__[:2], ok), nontrivial=True)
+                if not ok:
+                    ctx.violation('memoised-equals-freshly-built', 'related-classes', i,
+                                  {'instances_in_order': [short(o, 40) for o in order], 'step': step, 'instance': short(x, 80), 'method': label, 'method_result': got.brief(),
+                                   'pane.into_data(x, type(x))': want.brief()}, mech='method-result-depends-on-earlier-instances')
+                    return
+        a, b = rng.choice(((int, float), (bool, int), (str, pathlib.PurePosixPath)))
+        first = t.List[t.Union[a, b]]            # merely evaluating the other order's List alias must not matter
+        doc = {int: '--- 1\n', bool: '--- true\n', str: '--- a/b\n'}[a]
+        r = observe(env.m_io.from_yaml_all, _io.StringIO(doc), t.Union[b, a])
+        want = observe(env.from_data, {int: 1, bool: True, str: 'a/b'}[a], t.Union[b, a])
+        ctx.count('yaml_all_after_equal_alias')
+        if r.kind != 'value' or want.kind != 'value' or len(r.val) != 1 or not (deep_typed_eq(want.val, r.val[0])[0] and deep_typed_eq(r.val[0], want.val)[0]):
+            ctx.violation('memoised-equals-freshly-built', 'related-classes', i, {'alias_evaluated_before': short(first, 80), 'type': short(t.Union[b, a], 80), 'document': doc,
+                                                                                   'from_yaml_all': r.brief(), 'from_data': want.brief()},
+                          mech='from_yaml_all-depends-on-an-earlier-equal-alias')
+
+    import json
+    drive.for_each_case(ctx, 'related-classes', max(20, ctx.budget), related_classes, gen=lambda c, r: Ty('int'), seconds=60)
+
     with mon_lock:
         ctx.count('cache_hits', stats['hits'])
         ctx.count('cache_misses', stats['misses'])
